@@ -94,16 +94,17 @@ class SolverMonitor:
         orig_check = N.check
 
         @functools.wraps(orig_solve)
-        def solve(A, b, x, dof1, dof0, offsets=None, ext0=None, solver=N.spsolve):
+        def solve(A, b, x, dof1, dof0, offsets=None, ext0=None, **k):
             u = field_vector(x)
-            res = orig_solve(A, b, x, dof1, dof0, offsets=offsets, ext0=ext0, solver=solver)
+            res = orig_solve(A, b, x, dof1, dof0, offsets=offsets, ext0=ext0, **k)  # the library's default solver stays under test
             with attach.guard():
                 mon.post_solve(A, b, u, dof1, dof0, ext0, res)
             return res
 
         @functools.wraps(orig_check)
-        def check(dx, x, f, xtol, ftol, dof1=None, dof0=None, items=None, eps=1e-3):
-            out = orig_check(dx, x, f, xtol, ftol, dof1=dof1, dof0=dof0, items=items, eps=eps)
+        def check(dx, x, *a, **k):
+            # every argument goes through unchanged (the library's own defaults - eps among them - stay under test)
+            out = orig_check(dx, x, *a, **k)
             trace.log("check", fnorm=float(out[1]), success=bool(out[2]), x=field_hash(x) if hasattr(x, "fields") else None)
             return out
 
@@ -299,6 +300,12 @@ class SolverMonitor:
             fn = np.linalg.norm(f[dof1]) / (1e-3 + np.linalg.norm(f[dof0]))
             run.compare("newton.post", "clause=reported-residual", fn / tol, 1.0 + 1e-9,
                         "residual stored in the result exceeds the tolerance", unit="success:reported-residual")
+            fnorms = getattr(res, "fnorms", None)
+            if fnorms is not None and len(fnorms) and not ctx["custom"]:
+                # the reported norm of the last iteration is the documented criterion |f1| / (eps + |f0|), eps = 1e-3, of the returned residual
+                run.compare("newton.post", "clause=reported-norm-is-documented-criterion", abs(float(fnorms[-1]) - fn) / max(fn, 1e-300), 1e-9,
+                            "the norm reported for the last iteration is not |f[dof1]| / (1e-3 + |f[dof0]|) of the returned residual",
+                            unit="success:reported-norm")
         # --- independent re-assembly with fresh item copies (pre-call committed state)
         ic = ctx.get("items_copy")
         if ic is not None and dof1 is not None and dof0 is not None and not ctx["custom"]:
